@@ -15,6 +15,9 @@ from .tree_common import check_from_list_rows, check_sep
 
 
 def check(ck: Checker) -> None:
+    from . import round4 as _r4
+
+    _r4.failures_always_raised(ck, "C02.checkout.pair")
     ck.decided = [
         "C02.sep: Tree.as_list / from_list use the same path field and '/' separator (unbounded split)",
         "C02.zipalign: in _build_files every zip() pairs file names with paths that take order and length from the same listing",
